@@ -198,6 +198,7 @@ def run_replay(path: str, timeout: int = 600):
     env = dict(os.environ)
     env.pop("SYMPLYPHYSICS_VERIF", None)
     env["PYTHONPATH"] = ROOT + os.pathsep + env.get("PYTHONPATH", "")
+    env.setdefault("PYTHONHASHSEED", "0")
     try:
         p = subprocess.run([PY, "-c", rec["script"]], capture_output=True, text=True,
                            timeout=timeout, env=env, cwd="/tmp")
